@@ -114,7 +114,7 @@ def parseOp (j : Json) : Except String (Op CQ) := do
   | "deepcopy" => do pure (.deepcopy (← fldN j "h"))
   | "binop" => do pure (.binop (← parseBinOp j) (← fldN j "a") (← parseOperand j))
   | "inplace" => do pure (.inplace (← parseBinOp j) (← fldN j "a") (← parseOperand j))
-  | "storeFrame" => do pure (.storeFrame (← fldN j "h"))
+  | "storeFrame" => do pure (.storeFrame (← fldN j "h") (← optDT j "into"))
   | "loadFrame" => do pure (.loadFrame (← fldN j "t") (← fldN j "f"))
   | s => .error s!"unknown op {s}"
 
